@@ -1,6 +1,6 @@
 ------------------------------- MODULE MCOrder -------------------------------
-EXTENDS OrderStats, Json
-CONSTANTS ValSet
+EXTENDS OrderStats, Json, Randomization
+CONSTANTS ValSet, LongLens, PerLen
 SignedSet == {0 - 1, 0, 2}
 ElemDef == ValSet \cup {NULL}
 
@@ -12,4 +12,11 @@ EmitOrder ==
         ranks |-> SetToSeq({[rev |-> r, pct |-> p, e |-> DefRanks(r, p)] : r \in BOOLEAN, p \in BOOLEAN}),
         part |-> SetToSeq({[k |-> k, rev |-> r, want |-> DefPartition(k, r)] : k \in 0..(Len(s) + 1), r \in BOOLEAN})
         ])>>)
+
+\* long series: selection algorithms switch strategy with the length (insertion sort below ~20
+\* elements, partition-based selection above), so the bounded enumeration is complemented by
+\* PerLen random series of every length in LongLens over a ten-value alphabet with nulls
+Wide == (0 - 3)..6
+LongInit == \E len \in LongLens : s \in RandomSubset(PerLen, [1..len -> Wide \cup {NULL}])
+LongSpec == LongInit /\ [][Next]_vars
 =============================================================================
